@@ -65,6 +65,10 @@ Section C12seen.
   Proof. intros p. reflexivity. Qed.
   Goal forall p, W2q p <-> (exists m, In m (lmoves p) /\ L1q (make p m)).
   Proof. intros p. reflexivity. Qed.
+  Local Notation best_avoid := (SearchMateSeenProofs.best_avoid pos mv moves legal make in_check halfmove repeated).
+  Goal forall root s, best_avoid root s <->
+    (forall sc, best_score mv s = Some sc -> -32000 < sc -> exists m, best_move mv s = Some m /\ ~ W1 (make root m)).
+  Proof. intros root s. reflexivity. Qed.
   Goal forall s, tt_complete s <->
     (forall p e, tt_get mv s (key p) = Some e ->
        lmoves p <> []
@@ -115,6 +119,34 @@ Section C12seen.
   Proof. exact (quiet_mate_in_two_seen_search pos mv moves legal make in_check evalf is_cap is_promo cap_score mv_eqb key
                   halfmove repeated default_mv clock Inv Inv_make Inv_eval key_inj). Qed.
 
+  (* clause 3 of C12 with the cache on: unless the score says "lost" (<= -32000), a completed iteration of depth >= 2 never chooses a
+     move that allows a mate in one (of the look-ahead game: W1).  `best_avoid` is that property of the best-move slots, in the style
+     of best_sound; the hypothesis on the slots of the start state matters only when the root has no legal move (then the iteration
+     leaves the slots alone); fresh slots satisfy it.  An iteration of depth 1 does not establish it (the replies are only evaluated
+     by quiescence), which is why it is not stated as an invariant of every iteration. *)
+  Theorem C12_avoids_mate_in_one_cache_on : forall (s : St mv) (root : pos) (d : nat),
+    Inv root -> no_mate1 root -> (2 <= d)%nat -> running mv s = true ->
+    tt_sound s -> tt_complete s -> (lmoves root = [] -> best_avoid root s) ->
+    (seldepth mv (start s root d) < 254)%nat ->
+    best_avoid root (start s root d)
+    /\ (forall m sc, best_move mv (start s root d) = Some m -> best_score mv (start s root d) = Some sc ->
+                     -32000 < sc -> ~ W1 (make root m)).
+  Proof. exact (avoids_mate_in_one_cache_on pos mv moves legal make in_check evalf is_cap is_promo cap_score mv_eqb key
+                  halfmove repeated default_mv clock Inv Inv_make Inv_eval key_inj). Qed.
+
+  (* the whole search `go depth D`, D >= 2, from fresh slots: every iteration completes and overwrites the slots, so the final slots are
+     those of iteration D *)
+  Theorem C12_avoids_mate_in_one_cache_on_search : forall (s0 : St mv) (root : pos) (D : nat),
+    Inv root -> no_mate1 root -> (2 <= D <= 255)%nat -> running mv s0 = true ->
+    tt_sound s0 -> tt_complete s0 -> best_move mv s0 = None -> best_score mv s0 = None ->
+    let r := search pos mv moves legal make in_check evalf is_cap is_promo cap_score mv_eqb key
+                    halfmove repeated default_mv no_limits clock (fun _ => false) true s0 root (Some D) in
+    (seldepth mv (fst r) < 254)%nat ->
+    forall sc, best_score mv (fst r) = Some sc -> -32000 < sc ->
+      ~ W1 (make root (announced pos mv moves legal default_mv (fst r) root)).
+  Proof. exact (avoids_mate_in_one_cache_on_search pos mv moves legal make in_check evalf is_cap is_promo cap_score mv_eqb key
+                  halfmove repeated default_mv clock Inv Inv_make Inv_eval key_inj). Qed.
+
   (* the empty cache is short-mate complete *)
   Theorem C12_empty_cache_complete : tt_complete (init_st mv).
   Proof. exact (empty_cache_complete pos mv moves legal make in_check key halfmove repeated). Qed.
@@ -123,4 +155,84 @@ End C12seen.
 Print Assumptions C12_seen_preserved.
 Print Assumptions C12_quiet_mate_in_two_seen.
 Print Assumptions C12_quiet_mate_in_two_seen_search.
+Print Assumptions C12_avoids_mate_in_one_cache_on.
+Print Assumptions C12_avoids_mate_in_one_cache_on_search.
 Print Assumptions C12_empty_cache_complete.
+
+(* NON-VACUITY: a concrete game satisfying every hypothesis of C12_quiet_mate_in_two_seen_search, and what the search computes on it.
+   Positions and moves are numbers, every listed move is legal, evaluation 0, no captures, key = position number, half-move clock 0,
+   nothing repeated.   0 (root): move 0 -> 4 (no moves, not in check), move 1 -> 1;   1 (NOT in check): move 0 -> 2;   2: move 0 -> 3;
+   3: in check, no moves.   The key move 1 is quiet; 1 is mated in one whatever it plays; the root has no mate in one. *)
+Module SeenInstance.
+  Definition mvs (p : nat) : list nat := match p with 0 => [0; 1] | 1 | 2 => [0] | _ => [] end%nat.
+  Definition mk (p m : nat) : nat := match p, m with 0, 0 => 4 | 0, _ => 1 | 1, _ => 2 | 2, _ => 3 | _, _ => p end%nat.
+  Definition chk (p : nat) : bool := Nat.eqb p 3.
+  Definition lg (p m : nat) : bool := true.
+  Definition ev (p : nat) : Z := 0.
+  Definition hm (p : nat) : N := 0%N.
+  Definition rep (p : nat) : bool := false.
+  Definition nf (m : nat) : bool := false.
+  Definition cs (m : nat) : N := 0%N.
+  Definition clk (k : nat) : N := 0%N.
+  Local Notation go := (search nat nat mvs lg mk chk ev nf nf cs Nat.eqb N.of_nat hm rep 0%nat no_limits clk (fun _ => false) true).
+  Local Notation W2q := (SearchMateSeenProofs.W2q nat nat mvs lg mk chk hm rep).
+  Local Notation no_mate1 := (SearchMateSoundProofs.no_mate1 nat nat mvs lg mk chk).
+  Local Notation tt_sound := (SearchMateSoundProofs.tt_sound nat nat mvs lg mk chk N.of_nat).
+  Local Notation tt_complete := (SearchMateSeenProofs.tt_complete nat nat mvs lg mk chk N.of_nat hm rep).
+  Local Notation LostG := (Lost nat nat mvs lg mk chk).
+
+  Lemma Inv_make : forall (p m : nat), True -> In m (mvs p) -> lg p m = true -> True.
+  Proof. intros; exact I. Qed.
+  Lemma Inv_eval : forall p : nat, True -> -32000 < ev p < 32000.
+  Proof. intros p _. unfold ev. lia. Qed.
+  Lemma key_inj : forall p q : nat, N.of_nat p = N.of_nat q -> p = q.
+  Proof. intros p q. apply Nat2N.inj. Qed.
+  Lemma no_mate1_root : no_mate1 0%nat.
+  Proof. intros m [<-|[<-|[]]] [H1 H2]; [discriminate H2 | discriminate H1]. Qed.
+  Lemma W2q_root : W2q 0%nat.
+  Proof.
+    exists 1%nat. split; [right; left; reflexivity|]. split; [|reflexivity].
+    split; [reflexivity|]. split; [discriminate|]. intros m [<-|[]].
+    split; [reflexivity|]. exists 0%nat. split; [left; reflexivity|]. repeat split.
+  Qed.
+  Lemma sel_small : (seldepth nat (fst (go (init_st nat) 0%nat (Some 3%nat))) < 254)%nat.
+  Proof. apply Nat.ltb_lt. vm_compute. reflexivity. Qed.
+
+  (* every hypothesis of the theorem holds, and this is what the search computes *)
+  Example C12_seen_nonvacuous :
+    (forall (p m : nat), True -> In m (mvs p) -> lg p m = true -> True)
+    /\ (forall p : nat, True -> -32000 < ev p < 32000)
+    /\ (forall p q : nat, N.of_nat p = N.of_nat q -> p = q)
+    /\ no_mate1 0%nat /\ W2q 0%nat /\ (3 <= 3 <= 255)%nat
+    /\ running nat (init_st nat) = true /\ tt_sound (init_st nat) /\ tt_complete (init_st nat)
+    /\ best_move nat (init_st nat) = None /\ best_score nat (init_st nat) = None
+    /\ (seldepth nat (fst (go (init_st nat) 0%nat (Some 3%nat))) < 254)%nat
+    (* computed: *)
+    /\ seldepth nat (fst (go (init_st nat) 0%nat (Some 3%nat))) = 3%nat
+    /\ best_score nat (fst (go (init_st nat) 0%nat (Some 3%nat))) = Some 32765
+    /\ announced nat nat mvs lg 0%nat (fst (go (init_st nat) 0%nat (Some 3%nat))) 0%nat = 1%nat
+    /\ last (snd (go (init_st nat) 0%nat (Some 3%nat))) (Bestmove nat 9%nat) = Bestmove nat 1%nat.
+  Proof.
+    split; [exact Inv_make|]. split; [exact Inv_eval|]. split; [exact key_inj|].
+    split; [exact no_mate1_root|]. split; [exact W2q_root|]. split; [lia|]. split; [reflexivity|].
+    split; [exact (empty_cache_sound nat nat mvs lg mk chk N.of_nat)|].
+    split; [exact (empty_cache_complete nat nat mvs lg mk chk N.of_nat hm rep)|].
+    split; [reflexivity|]. split; [reflexivity|]. split; [exact sel_small|].
+    repeat split; vm_compute; reflexivity.
+  Qed.
+
+  (* the theorem applied to the instance *)
+  Example C12_seen_instance :
+    exists sc, best_score nat (fst (go (init_st nat) 0%nat (Some 3%nat))) = Some sc /\ 32000 <= sc
+               /\ LostG (mk 0%nat (announced nat nat mvs lg 0%nat (fst (go (init_st nat) 0%nat (Some 3%nat))) 0%nat)).
+  Proof.
+    pose proof (C12_quiet_mate_in_two_seen_search nat nat mvs lg mk chk ev nf nf cs Nat.eqb N.of_nat hm rep 0%nat clk
+                  (fun _ => True) Inv_make Inv_eval key_inj (init_st nat) 0%nat 3%nat I no_mate1_root W2q_root ltac:(lia) eq_refl
+                  (empty_cache_sound nat nat mvs lg mk chk N.of_nat)
+                  (empty_cache_complete nat nat mvs lg mk chk N.of_nat hm rep) eq_refl eq_refl) as H.
+    cbv zeta in H. exact (proj2 (proj2 (H sel_small))).
+  Qed.
+End SeenInstance.
+
+Print Assumptions SeenInstance.C12_seen_nonvacuous.
+Print Assumptions SeenInstance.C12_seen_instance.
